@@ -41,10 +41,6 @@ def term_block(b):
     return ghost_pred('term_block', b)
 
 
-def binds(pat, k):
-    return ghost_pred('binds', pat, k)
-
-
 def in_da_block(b, v, k):
     """k ∈ DAblock(b, [[v]]) for a non-terminated v"""
     return term_block(b) or bound(v, k) or gen_block(b, k)
@@ -54,3 +50,23 @@ def in_da_block(b, v, k):
 
 def cc_block(b, entry):
     return ghost_pred('cc_block', b, entry)
+
+
+# -- binding patterns: NamedId | UnderscoreId | TupleBinding
+
+def binds(pat, k):
+    """k is one of the names bound by the pattern"""
+    if cls_name(pat) == 'NamedId':
+        return k == pat
+    if cls_name(pat) == 'UnderscoreId':
+        return False
+    return ghost_pred('binds_tuple', pat, k)       # TupleBinding: the union over its elements (abstract)
+
+
+def live(ctx):
+    return not ctx.env.terminated
+
+
+def da_unchanged(ctx, result):
+    """[[result]] ⊆ [[ctx.env]]: the statement introduces nothing that survives it"""
+    return implies(live(ctx), env_subset(result, ctx.env))
